@@ -24,12 +24,18 @@
 
   Still rejected (`reject_*`, `witness_*`): GetAffineX_Unsafe / Bytes_Unsafe (big.Int.ModInverse of Z).
   They are reachable only from VerifyHashed, on a point computed from public data (signature and
-  public key): outside C08.  `failing_prog` / `callers_of_unsafe`: nothing else fails, nothing that
+  public key): outside C08.  `failing_prog` / `callers_of_modinverse_conversions`: nothing else fails, nothing that
   passes calls them.
 
   Former violations, repaired in the sources (documentation; see SMGo/Proofs/CTIRCheckE.lean):
   SM2ScalarElement.SetBytes early-exit comparison (9cead3d); SignHashed / GenerateKey / DerivePublic through
-  GetAffineX_Unsafe / Bytes_Unsafe (233fd1f); ConstantTimeCmp's branching three-way result (9a85a34).
+  GetAffineX_Unsafe / Bytes_Unsafe (233fd1f); ConstantTimeCmp's branching three-way result (9a85a34);
+  SignHashed's use of the byte lengths of (r+k).Bytes() and (1+d).Bytes() (3579533: fixed-width FillBytes).
+
+  What the math/big shape hypothesis (`OracleRel`, second clause) still covers in SignHashed: the results
+  of SetBytes / Add / Mul / Sub / Mod / Sign are integers (no shape), FillBytes returns a buffer of the
+  length of its buffer argument, and `Bytes()` is applied only to the outputs r and s in ensure32Bytes
+  (their byte lengths become slice bounds; r and s are the public signature).
 -/
 import SMGo.Model.CTIR
 import SMGo.Gen.CTIRProg
@@ -284,11 +290,11 @@ theorem failing_prog : failing prog sigs =
   SMGo.Proofs.CTIRCheck.failing_prog
 /-- … and the only translated function that calls one of them is `Bytes_Unsafe` itself: no path from
     SignHashed, GenerateKey or DerivePublic reaches them -/
-theorem callers_of_unsafe :
+theorem callers_of_modinverse_conversions :
     (List.range prog.length).filter (fun g => match prog[g]? with
       | some fn => (calleesS fn.body).any (fun c => c == f_internal_SM2Point_GetAffineX_Unsafe ||
           c == f_internal_SM2Point_Bytes_Unsafe || c == f_internal_SM2Point_bytes_safe_false || c == f_internal_SM2Point_bytes)
-      | none => false) = [f_internal_SM2Point_Bytes_Unsafe] := SMGo.Proofs.CTIRCheck.callers_of_unsafe
+      | none => false) = [f_internal_SM2Point_Bytes_Unsafe] := SMGo.Proofs.CTIRCheck.callers_of_modinverse_conversions
 
 /-- two points of the same shape, the same verdict (not at infinity), different traces: the leaked
     argument of `big.Int.ModInverse` is Z -/
